@@ -8,6 +8,7 @@
 mod c01;
 mod c01b;
 mod c01c;
+mod facts_nested;
 mod c02;
 mod c03;
 mod c13;
@@ -62,6 +63,7 @@ fn main() {
     all.extend(c01::witnesses());
     all.extend(c01b::witnesses());
     all.extend(c01c::witnesses());
+    all.extend(facts_nested::witnesses());
     all.extend(c02::witnesses());
     all.extend(c03::witnesses());
     all.extend(c13::witnesses());
